@@ -54,7 +54,8 @@ class Ctx:
 
 
 class LoopSpec:
-    def __init__(self, invariant, decreases=None, modifies=None, name=None):
+    def __init__(self, invariant, decreases=None, modifies=None, name=None, seqvars=None):
+        self.seqvars = seqvars or {}  # local lists built by the loop: name -> TSeq type (turned into symbolic sequences)
         self.invariant = invariant  # fn(ctx, env, k) -> list[(name, Bool)] or Bool
         self.decreases = decreases  # fn(ctx, env) -> z3 Int
         self.modifies = modifies  # fn(ctx, env) -> list of boxes to havoc in addition to syntactic targets
@@ -383,6 +384,10 @@ class FnSpec:
             n, item = iter_protocol(eng, it)
             if n is None:
                 raise OutOfSubset("cannot iterate over %r at line %s" % (it, s.lineno))
+        for vn, vt in ls.seqvars.items():
+            cur = env.get(vn)
+            if isinstance(cur, ListVal):
+                env[vn] = SeqBox(vt.lift(cur.items).term, vt)
         k0 = z3.IntVal(0)
 
         def inv(k):
